@@ -27,16 +27,24 @@ func scenarioDiffNest(cfg config, r *hx.Rng) (rec, []mmRec) {
 		seeds[i] = r.U64()
 	}
 	return run(c, func() {
-		store, err := db.NewInMemoryDB()
-		if err != nil {
-			panic(err)
+		// two INDEPENDENT staged stores (own database, own mutex, own cache), as the generator and the executer have:
+		// goroutine g works on store g%2, so scans of the two stores run concurrently with nothing shared but the package
+		roots := [2]*diffdb.Database{}
+		for i := range roots {
+			store, err := db.NewInMemoryDB()
+			if err != nil {
+				panic(err)
+			}
+			roots[i] = diffdb.New(store, []byte{10}) // blockchain.DBPrefixState
 		}
-		root := diffdb.New(store, []byte{10})                                                  // blockchain.DBPrefixState
 		modPrefix := func(m int) []byte { return []byte{0, 0, 0, byte(m + 1)} }                // 4-byte module prefix
 		storePrefix := func(g int) []byte { return []byte{byte(0x80 | g>>4), byte(g)<<4 | 1} } // 2-byte store prefix
-		mods := make([]*diffdb.Database, modules)                                              // long-lived module views, shared by the goroutines
-		for m := range mods {
-			mods[m] = root.WithPrefix(modPrefix(m))
+		allMods := [2][]*diffdb.Database{}                                                     // long-lived module views, shared by the goroutines of a store
+		for i := range roots {
+			allMods[i] = make([]*diffdb.Database, modules)
+			for m := range allMods[i] {
+				allMods[i][m] = roots[i].WithPrefix(modPrefix(m))
+			}
 		}
 		model := make([][][]byte, n) // model[g][k]: last value goroutine g wrote under its key k (nil = absent)
 		var wg sync.WaitGroup
@@ -48,6 +56,7 @@ func scenarioDiffNest(cfg config, r *hx.Rng) (rec, []mmRec) {
 				defer c.guard("nested view user")
 				rr := hx.NewRng(seeds[g])
 				m := g % modules
+				root, mods := roots[g%2], allMods[g%2]
 				for i := 0; !c.stopped(); i++ {
 					// a fresh sibling view per access, derived from the shared module view (or from a fresh chain)
 					var view *diffdb.Database
@@ -70,6 +79,10 @@ func scenarioDiffNest(cfg config, r *hx.Rng) (rec, []mmRec) {
 					got, ok := view.Get(key)
 					if want := model[g][k]; ok != (want != nil) || (ok && !bytes.Equal(got, want)) {
 						c.fail("nested-view: goroutine %d reads key %d through its store view: got %x (found=%v), it last wrote %x", g, k, got, ok, want)
+						return
+					}
+					if kvs := view.Range([]byte{0}, []byte{keysPer}, -1, rr.Bool()); len(kvs) > keysPer {
+						c.fail("nested-view: goroutine %d sees %d keys in the range of its store view, it only ever wrote %d", g, len(kvs), keysPer)
 						return
 					}
 					if kvs := view.Iterate([]byte{}, -1, false); len(kvs) > keysPer {
@@ -95,7 +108,7 @@ func scenarioDiffNest(cfg config, r *hx.Rng) (rec, []mmRec) {
 		for g := 0; g < n; g++ {
 			for k := 0; k < keysPer; k++ {
 				full := bytes.Join([][]byte{modPrefix(g % modules), storePrefix(g), {byte(k)}}, nil)
-				got, ok := root.Get(full)
+				got, ok := roots[g%2].Get(full)
 				if want := model[g][k]; ok != (want != nil) || (ok && !bytes.Equal(got, want)) {
 					c.fail("nested-view: root view reads %x = %x (found=%v), goroutine %d last wrote %x there", full, got, ok, g, want)
 					return
